@@ -52,6 +52,8 @@ func init() {
 		"strings.TrimSuffix":      hShorterString,
 		"strings.Trim":            hShorterString,
 		"strconv.Atoi":            hAtoi,
+		"sync/atomic.AddUint64":   hAtomicAdd(64),
+		"sync/atomic.AddUint32":   hAtomicAdd(32),
 	}
 }
 
@@ -583,4 +585,22 @@ func (ex *Exec) materialiseSlice(g *gInit, lit *ast.CompositeLit, t types.Type, 
 	ex.fact(Eq(ref, Int(int64(-3000-int64(hashStr(name)%100000)))))
 	n := int64(len(lit.Elts))
 	return Val{T: t, L: []Term{ref, Int(0), Int(n), Int(n)}}
+}
+
+
+// atomic.AddUintN(&x, d): x += d (wrapping), returns the new value. The
+// operation is a single atomic action (listed in the trusted base).
+func hAtomicAdd(bits int) externHandler {
+	return func(fr *Frame, cc *ssa.CallCommon, args []Val, st *State, instr ssa.Instruction) (*State, []Val) {
+		ex := fr.ex
+		loc := ex.ptrLoc(args[0])
+		el := under(cc.Args[0].Type()).(*types.Pointer).Elem()
+		if len(loc.Idx) > 0 {
+			fr.oblige(st, "nil", exprLabel(fr, cc.Args[0]), Ne(loc.Idx[0], Int(0)), instr.Pos())
+		}
+		old := ex.load(st, loc, el)
+		nv := ex.vc.define("atomicadd", wrap(Add(old.one(), args[1].one()), el, true))
+		ex.store(st, loc, el, Val{T: el, L: []Term{nv}})
+		return st, []Val{{T: el, L: []Term{nv}}}
+	}
 }
